@@ -113,7 +113,7 @@ func flatPackages(p *control.BinaryIndex) (J, J) {
 		"Homepage": B(p.Homepage), "DescriptionMD5": B(p.DescriptionMD5), "Tags": strs(p.Tags), "Section": B(p.Section),
 		"Priority": B(p.Priority), "Filename": B(p.Filename), "Size": p.Size, "MD5sum": B(p.MD5sum), "SHA1": B(p.SHA1), "SHA256": B(p.SHA256),
 		"DebugBuildIds": strs(p.DebugBuildIds),
-		"acc:Depends": depText(p.GetDepends()), "acc:PreDepends": depText(p.GetPreDepends()), "acc:Conflicts": depText(p.GetConflicts()),
+		"acc:Depends":   depText(p.GetDepends()), "acc:PreDepends": depText(p.GetPreDepends()), "acc:Conflicts": depText(p.GetConflicts()),
 		"acc:Breaks": depText(p.GetBreaks()), "acc:Replaces": depText(p.GetReplaces()), "acc:Suggests": depText(p.GetSuggests()),
 		"acc:BuiltUsing": depText(p.GetBuiltUsing())}, J{"SourcePackage": B(p.SourcePackage())}
 }
